@@ -570,6 +570,11 @@ func (q *BufferedChannelQueue[T]) loadFromPool() {
 		}
 
 		q.lock.Lock()
+		if q.isClosed.Get() {
+			// closed while waiting for the lock: blockingQueue is closed too
+			q.lock.Unlock()
+			break
+		}
 
 		var val T
 		var pollErr, offerErr error
@@ -596,6 +601,13 @@ func (q *BufferedChannelQueue[T]) loadFromPool() {
 }
 
 func (q *BufferedChannelQueue[T]) notifyWorkers() {
+	// Close() closes loadWorkerCh under the write lock: never post a wake-up on it afterwards
+	q.lock.RLock()
+	defer q.lock.RUnlock()
+	if q.isClosed.Get() {
+		return
+	}
+
 	q.loadWorkerCh.Offer(1)
 	q.freeNodeWorkerCh.Offer(1)
 }
